@@ -209,10 +209,10 @@ theorem eval_protCoverage (ctx : Ctx) : ∀ fuel,
         rw [eval_href] at h
         split at h
         · cases h
-        · rename_i parts hp
-          split at h
+        · split at h
           · cases h
-          · simp only [Except.ok.injEq] at h; subst h
+          · rename_i parts hp
+            simp only [Except.ok.injEq] at h; subst h
             obtain ⟨p, hpm, hc⟩ := ih2 cs parts hp o (by simpa [printed] using ho)
             exact hc.of_infix (pc_infix_mk (by intro h; cases h) hpm)
       | namePart before tie abbr cs =>
